@@ -100,6 +100,9 @@ func (it *Generator) Send(arg Object) (Object, error) {
 	res, err := VmRunFrame(it.Frame)
 	it.Running = false
 	if err != nil {
+		// An exception escaped from the frame so the generator
+		// is finished - don't resume the frame again
+		it.Frame.Yielded = false
 		return nil, err
 	}
 	if it.Frame.Yielded {
